@@ -109,14 +109,22 @@ def _vm_goal(case, out):
 
 def _c05_vm_sample(d, tier, coq, build, want=240):
     import os, subprocess, collections
-    if tier != "thorough":
-        return []
     outs = {}
     with open(os.path.join(d, "model.txt")) as f:
         for l in f:
             i, _, o = l.rstrip("\n").partition(" ")
             outs[i] = o
-    quota = {"RA": 90, "CB": 90, "ST": 80}
+    # floor: the model must have judged most of the run (a driver that answers UNJUDGED
+    # everywhere would otherwise pass silently)
+    judged = sum(1 for o in outs.values() if not o.startswith("UNJUDGED"))
+    if len(outs) >= 1000 and judged * 2 < len(outs):
+        return ["the model judged only %d of %d cases" % (judged, len(outs))]
+    if len(outs) < 1000:
+        return []  # replay / corpus runs
+    if tier == "thorough":
+        quota = {"RA": 90, "CB": 90, "ST": 80}
+    else:
+        quota, want = {"RA": 20, "CB": 20, "ST": 20}, 50
     total, got, stride = collections.Counter(), collections.Counter(), collections.Counter()
 
     def eligible(c):
@@ -187,7 +195,7 @@ CONFIG = {
         "store options and public wrappers: the model covers file.New defaults, oci.NewStorage, cas.Memory, LimitedStorage; oci.Store (oci.New), memory.Store, file.Store with DisableOverwrite / ForceCAS / IgnoreNoName / NewWithFallbackStorage are run by the oracle only (stream SX, incl. races on file and oci.Store); Store.IgnoreNoName discards unnamed pushes by documented option (Push may return nil for any content): there only 'nothing became visible' is judged; AllowPathTraversalOnWrite, SkipUnpack / the unpack annotation (pushDir) and manifest media types (restoreDuplicates, graph indexing) are not generated",
         "reader scripts: EOF is sticky (a reader that delivers data or an error after io.EOF is not expressible); several injected errors per script, 0-byte reads and data+EOF / data+error in one call are",
         "concurrency: theorems for oci.Storage (C05_concurrent_same_digest, tied by outcome membership) and cas.Memory / LimitedStorage (C05_concurrent_memory, tied by outcome membership of 2-3 goroutine races as well); file.Store and oci.Store races (one digest under two names, one name twice, descriptors of one digest with different Size) are oracle only; 'at every instant' is observed by a polling goroutine (Fetch and a walk of blobs/), i.e. by sampling",
-        "the in-Coq vm_compute re-evaluation of correspondence cases runs in the thorough tier only; go-digest's grammar / algorithm table is hand-modelled (not regenerated by the translator)",
+        "the in-Coq vm_compute re-evaluation of correspondence cases: 60 goals in the quick tier, 260 in the thorough tier; go-digest's grammar / algorithm table is hand-modelled (not regenerated by the translator)",
     ],
     "level_text": "Coq theorems for every reader behaviour (arbitrary chunking, 0-byte reads, error at any offset, data with EOF), every descriptor and every digest function: ReadAll / any use of VerifyReader / CopyBuffer (any buffer size) succeed only with exactly the descriptor's bytes and an exhausted reader; malformed or unsupported digest, negative size, short reader, wrong first-Size bytes and trailing bytes are always errors; Push on memory, limited, OCI and file stores stores exactly those bytes or leaves Exists/Fetch/blobs unchanged; after any push history everything visible matches; any interleaving of concurrent OCI pushes keeps every blob verified; pre-fix negative-size acceptance kept as a refuted witness. Model tied to the code by differential runs (scripted readers x descriptors x push histories on the real stores, listing blobs/ and ingest/) and an independent SHA-2 oracle incl. goroutine races and the caching proxy",
     "level_note": "digest function abstract (no SHA-2 model); Go io helpers and go-digest validation hand-modelled (tied by correspondence, AST hashes of the mirrored functions recorded); write errors of the destination and path traversal/unpack in file.Store are not modelled; cas.Proxy is modelled for memory caches and closing callers; file.Store name aliasing violates the property (known finding file-alias-clobbers-visible, theorem only _partial); options/wrappers, destination faults, file-store races and sizes > 2^30 are oracle-only; the concurrent transition system is tied by outcome-set membership of small races (not by per-syscall traces)",
